@@ -80,8 +80,8 @@ PROPS = {
     "C19": P("determinism", ["default", "queues"], ["*"], ["*"],
              "the model's step is a function and the implementation equals it on every explored step; regenerated hazard table",
              module=None, level="other", probes="C19"),
-    "C20": P("queries", ["queues", "default"], ["uq", "ui", "redels", "dels"], ["query"] + USER_OPS,
-             "query refinement theorems; every query after every step against the reference enumeration",
+    "C20": P("queries", ["queues", "default"], ["query", "uq", "ui", "redels", "dels"], ["query"] + USER_OPS + ["slash", "endblock"],
+             "query refinement theorems over the model's query functions; every query of the real query server after every step against the model's answer on the observed state (`Q` lines) and against the reference enumeration",
              module=None, probes="C20"),
 }
 
